@@ -40,35 +40,37 @@ Qed.
 
 Section Step.
 Variable cap : nat.
+Variable ep : N.
 Variable lam : fev -> N.
 Variable vals : list (N * N).
 Hypothesis Hvals : vals_ok vals.
-Variable K : N.                (* bound on the Build counter during the run *)
 
 Notation ws := (map snd vals).
 Notation nv := (length vals).
 Notation q := (ElectionSpec.quorum_of ws).
 Notation fcn := (fc_n ws q).
-Notation ae := (to_aevent lam vals).
+Notation ae := (to_aevent ep lam vals).
 Notation slot := (slot vals).
-Notation Core := (Core lam vals).
+Notation Core := (Core ep lam vals).
 Notation cache_inv := (cache_inv vals).
-
-(* simulation at event boundaries; B = the blocks (frame, Atropos, cheaters) emitted so far *)
-Record Sim (i : inst) (T : list node) (Dr : list fev) (B : list (N * N * list N)) : Prop := {
-  sm_wf : wfTD vals T Dr;
-  sm_done : Done lam vals T Dr (i_es i) (l_ctr (i_st i)) (i_st i);
-  sm_fresh : forall e, In e Dr -> id_fresh K (eid (fe e));
-  sm_ctr : l_ctr (i_st i) <= K;
-  sm_proc : forall id, In id (i_proc i) <-> In id (ids_of Dr);
-  sm_seg : Seg vals T 0 (map fst B) (l_ldf (i_st i));
-  sm_cheat : forall b, In b B -> snd b = ElectionSpec.cheaters_of vals T (snd (fst b)) }.
 
 Lemma Seg_in T L B L1 f a : Seg vals T L B L1 -> In (f, a) B ->
   decide node nd_id nd_cr nd_fr nd_spf fcn ws q (canon_order vals) T f (max_frame node nd_fr T) = Atropos a.
 Proof.
   induction 1 as [|L a0 t L1 Hd Hs IH]; intros Hin; [destruct Hin|].
   destruct Hin as [E|Hin]; [inversion E; subst; exact Hd | apply IH; exact Hin].
+Qed.
+
+Lemma Seg_frames T L B L1 f a : Seg vals T L B L1 -> In (f, a) B -> L < f <= L1.
+Proof.
+  induction 1 as [|L a0 t L1 Hd Hs IH]; intros Hin; [destruct Hin|]. pose proof (Seg_le vals T _ _ _ Hs).
+  destruct Hin as [E|Hin]; [inversion E; subst; lia | specialize (IH Hin); lia].
+Qed.
+Lemma Seg_last T L B L1 : Seg vals T L B L1 -> L < L1 -> exists a, In (L1, a) B.
+Proof.
+  induction 1 as [|L a0 t L1 Hd Hs IH]; intros Lt; [lia|].
+  destruct (N.eq_dec (L + 1) L1) as [<-|NE]; [exists a0; left; reflexivity|].
+  pose proof (Seg_le vals T _ _ _ Hs). destruct IH as [a Ha]; [lia|]. exists a. right. exact Ha.
 Qed.
 
 Lemma vev_ae e : (ecr (fe e) < nv)%nat -> vev vals (ae e) = fe e.
@@ -82,8 +84,8 @@ Lemma accepted_wf_new st es T Dr R e : Core st es T Dr R ->
   parents_known T e -> nlookup (eid (fe e)) T = None -> (ecr (fe e) < nv)%nat -> ev_wf T e ->
   wf_new nv (l_idx st) (fe e).
 Proof.
-  intros C PK NL CR [S1 S2]. pose proof (co_wf _ _ _ _ _ _ _ C) as W.
-  unfold wf_new, evt. rewrite (co_evs _ _ _ _ _ _ _ C).
+  intros C PK NL CR [S1 S2]. pose proof (co_wf _ _ _ _ _ _ _ _ C) as W.
+  unfold wf_new, evt. rewrite (co_evs _ _ _ _ _ _ _ _ C).
   split; [apply (link_none vals T Dr _ W NL)|]. split; [exact CR|]. split; [exact S1|]. split.
   - intros p Hp. destruct (PK p Hp) as [n L]. apply nlookup_some in L as [Hn En].
     destruct (link_node vals T Dr n W Hn) as [ev [E _]]. exists ev. rewrite <- En. exact E.
@@ -132,14 +134,37 @@ Proof.
       * left. apply I. exists m, g. auto.
 Qed.
 
+Variable J : N -> Prop.        (* ids of events whose Process was rejected (their cache entries may be stale) *)
+Variable K : N.                (* bound on the Build counter during the run *)
+
+(* simulation at event boundaries; B = the blocks (frame, Atropos, cheaters) emitted so far *)
+Record Sim (i : inst) (T : list node) (Dr : list fev) (B : list (N * N * list N)) : Prop := {
+  sm_wf : wfTD vals T Dr;
+  sm_done : Done ep lam vals T Dr (i_es i) (stale J (l_ctr (i_st i))) (i_st i);
+  sm_fresh : forall e, In e Dr -> id_fresh K (eid (fe e)) /\ ~ J (eid (fe e));
+  sm_ctr : l_ctr (i_st i) <= K;
+  sm_proc : forall id, In id (i_proc i) <-> In id (ids_of Dr);
+  sm_seg : Seg vals T 0 (map fst B) (l_ldf (i_st i));
+  sm_cheat : forall b, In b B -> snd b = ElectionSpec.cheaters_of vals T (snd (fst b)) }.
+
+Variable pol : policy.         (* the application's sealing policy *)
+Variable sf : N -> option Abft.vals.   (* ... in the current epoch: seal at frame f with validators sf f *)
+Hypothesis Hsf : forall f a ch dl, policy_fn pol ep f a ch dl = sf f.
+
 (* ---------- Process of an event the reference accepts ---------- *)
-Lemma process_step i T Dr B e : Sim i T Dr B -> id_fresh K (eid (fe e)) ->
+Lemma process_step_gen i T Dr B e : Sim i T Dr B -> id_fresh K (eid (fe e)) -> ~ J (eid (fe e)) ->
   parents_known T e -> nlookup (eid (fe e)) T = None -> (ecr (fe e) < nv)%nat -> ev_wf T e ->
   r_frame_ok vals T (mk_node nv T e) = true -> few_forkers vals (mk_node nv T e :: T) ->
-  exists bl i', step cap [] sample i (OpP (ae e)) = (ObsP None bl (l_ldf (i_st i')) 1, i', false) /\
-    Sim i' (mk_node nv T e :: T) (e :: Dr) (B ++ map blk_obs bl) /\ l_ctr (i_st i') = l_ctr (i_st i).
+  let T' := mk_node nv T e :: T in
+  exists bl i' L, step cap pol sample i (OpP (ae e)) = (ObsP None bl (l_ldf (i_st i')) (l_epoch (i_st i')), i', false) /\
+    Seg vals T' 0 (map fst (B ++ map blk_obs bl)) L /\
+    (forall b, In b (B ++ map blk_obs bl) -> snd b = ElectionSpec.cheaters_of vals T' (snd (fst b))) /\
+    ((Sim i' T' (e :: Dr) (B ++ map blk_obs bl) /\ l_ctr (i_st i') = l_ctr (i_st i) /\ l_epoch (i_st i') = ep /\
+      L = l_ldf (i_st i') /\ NoSeal sf (l_ldf (i_st i)) L) \/
+     (exists nv', l_ldf (i_st i) < L /\ NoSeal sf (l_ldf (i_st i)) (L - 1) /\ sf L = Some nv' /\
+        i' = {| i_st := sealed_state ep nv' (l_ctr (i_st i)); i_es := aput (eid (fe e)) (ae e) (i_es i); i_proc := [] |})).
 Proof.
-  intros [W [S [ES0 AV]] FR CT PR SG CH] Fe PK NL CR EW FO Hff'.
+  intros [W [S [ES0 AV]] FR CT PR SG CH] Fe Je PK NL CR EW FO Hff'.
   set (n := mk_node nv T e). set (st := i_st i) in *. set (es := i_es i) in *.
   destruct ES0 as [C CI I0 N0].
   pose proof (wfTD_wfT vals T Dr W) as HwfT.
@@ -152,63 +177,65 @@ Proof.
   { unfold guard. fold st. cbn [andb to_aevent a_id a_epoch a_parents a_creator].
     replace (AbftRun.mem (eid (fe e)) (i_proc i)) with false.
     2:{ symmetry. destruct (AbftRun.mem (eid (fe e)) (i_proc i)) eqn:M; [|reflexivity]. exfalso. apply Hnotin, PR, mem_true, M. }
-    rewrite (co_epoch _ _ _ _ _ _ _ C). cbn [N.eqb Pos.eqb negb].
+    rewrite (co_epoch _ _ _ _ _ _ _ _ C), N.eqb_refl. cbn [negb].
     replace (forallb (fun p => AbftRun.mem p (i_proc i)) (epar (fe e))) with true.
     2:{ symmetry. apply forallb_forall. intros p Hp. apply mem_true, PR. destruct (PK p Hp) as [m L].
         apply nlookup_some in L as [Hm Em]. destruct (node_event vals T Dr m W Hm) as [e0 [He0 [E0 _]]].
         unfold ids_of. apply in_map_iff. exists e0. split; [congruence | exact He0]. }
-    cbn [negb]. rewrite (co_vals _ _ _ _ _ _ _ C), (v_exists_vid vals _ (vals_nodup vals Hvals) CR). reflexivity. }
+    cbn [negb]. rewrite (co_vals _ _ _ _ _ _ _ _ C), (v_exists_vid vals _ (vals_nodup vals Hvals) CR). reflexivity. }
   cbn [step]. rewrite G. fold st es.
   set (es1 := aput (a_id (ae e)) (ae e) es).
   (* index Add *)
   pose proof (accepted_wf_new st es T Dr T e C PK NL CR EW) as WN.
-  destruct (add_preserves nv (l_idx st) (fe e) (co_vinv _ _ _ _ _ _ _ C) WN) as [s' [Hadd [I' Ev']]].
-  unfold process. rewrite (co_vals _ _ _ _ _ _ _ C), (vev_ae e CR), Hadd.
+  destruct (add_preserves nv (l_idx st) (fe e) (co_vinv _ _ _ _ _ _ _ _ C) WN) as [s' [Hadd [I' Ev']]].
+  unfold process. rewrite (co_vals _ _ _ _ _ _ _ _ C), (vev_ae e CR), Hadd.
   (* the state in which the frame is checked *)
   assert (Hes1 : get_event es1 (eid (fe e)) = Some (ae e)).
   { unfold es1, get_event. cbn [to_aevent a_id]. apply alookup_aput_eq. }
   assert (Hes1' : forall e0, In e0 Dr -> get_event es1 (eid (fe e0)) = Some (ae e0)).
   { intros e0 He0. unfold es1, get_event. cbn [to_aevent a_id]. rewrite alookup_aput_neq.
-    - apply (co_es _ _ _ _ _ _ _ C); [exact He0|]. destruct (event_node vals T Dr e0 W He0) as [m [Hm [Em _]]]. exists m. auto.
+    - apply (co_es _ _ _ _ _ _ _ _ C); [exact He0|]. destruct (event_node vals T Dr e0 W He0) as [m [Hm [Em _]]]. exists m. auto.
     - intros E0. apply Hnotin. rewrite <- E0. unfold ids_of. apply in_map_iff. exists e0. auto. }
   assert (C1 : Core (set_idx st s') es1 (n :: T) (e :: Dr) T).
   { destruct C as [A Bv Cc D E F Gs H Ir]. constructor; auto.
     - cbn [l_idx set_idx]. rewrite Ev', E. reflexivity.
     - intros e0 [<-|He0] _; [exact Hes1 | apply Hes1'; exact He0].
     - intros x Hx. right. exact Hx. }
-  assert (NTn : ~ is_temp (l_ctr st) (nd_id n)) by (apply (id_fresh_not_temp K); [exact CT | exact Fe]).
-  assert (CIa : cache_inv (l_ctr st) (set_idx st s') (n :: T) T).
+  assert (NTn : ~ stale J (l_ctr st) (nd_id n)).
+  { intros [Tm|Jn]; [exact (id_fresh_not_temp K _ _ CT Fe Tm) | exact (Je Jn)]. }
+  assert (CIa : cache_inv (stale J (l_ctr st)) (set_idx st s') (n :: T) T).
   { intros a b r Hc. destruct (CI a b r Hc) as [Tm|(na & nb & Ia & Ib & R)]; [left; exact Tm|].
     right. exists na, nb. split; [right; exact Ia | auto]. }
-  destruct (calc_frame_sim cap lam vals Hvals (set_idx st s') es1 (n :: T) (e :: Dr) T (l_ctr st) (n :: T) n (ae e) true
+  destruct (calc_frame_sim cap ep lam vals Hvals (set_idx st s') es1 (n :: T) (e :: Dr) T (stale J (l_ctr st)) (n :: T) n (ae e) true
               C1 (incl_refl _) (or_introl eq_refl) NTn eq_refl CIa) as [c1 [ECF CI1]].
   rewrite ECF.
-  rewrite (frame_check_sim lam vals Hvals (set_idx st s') es1 T Dr e (ae e) C1 eq_refl eq_refl eq_refl).
+  rewrite (frame_check_sim ep lam vals Hvals (set_idx st s') es1 T Dr e (ae e) C1 eq_refl eq_refl eq_refl).
   cbn [to_aevent a_frame]. rewrite N.eqb_refl. cbn [negb].
-  change (a_frame (to_aevent lam vals e)) with (ffr e).
+  change (a_frame (to_aevent ep lam vals e)) with (ffr e).
   set (st1 := set_fcc (set_idx st s') c1).
   assert (Lspf : nd_spf n <= ffr e) by (apply (spf_le_fr vals (n :: T) n HwfT' (or_introl eq_refl))).
-  pose proof (Core_add_roots st1 es1 T Dr e (Core_fcc _ _ _ _ _ _ _ c1 C1) NL Lspf Hes1) as C2.
+  pose proof (Core_add_roots st1 es1 T Dr e (Core_fcc _ _ _ _ _ _ _ _ c1 C1) NL Lspf Hes1) as C2.
   cbn zeta in C2. fold n in C2.
   set (st2 := if nd_spf n =? ffr e then st1 else add_roots st1 (nd_spf n) (ae e)) in *.
   assert (F2 : l_ldf st2 = l_ldf st /\ l_el st2 = l_el st /\ l_ctr st2 = l_ctr st /\ l_fcc st2 = c1).
   { unfold st2. destruct (nd_spf n =? ffr e); repeat split. }
   destruct F2 as (L2 & El2 & Ct2 & Fc2).
   (* the election over the new table *)
-  assert (NT' : forall m, In m (n :: T) -> ~ is_temp (l_ctr st) (nd_id m)).
+  assert (NT' : forall m, In m (n :: T) -> ~ stale J (l_ctr st) (nd_id m)).
   { intros m [<-|Hm]; [exact NTn|]. destruct (node_event vals T Dr m W Hm) as [e0 [He0 [E0 _]]].
-    rewrite <- E0. apply (id_fresh_not_temp K); [exact CT | apply FR, He0]. }
+    rewrite <- E0. destruct (FR e0 He0) as [F0 J0]. intros [Tm|Jn]; [exact (id_fresh_not_temp K _ _ CT F0 Tm) | exact (J0 Jn)]. }
   pose (Sold := fun r => S r /\ exists m g, In m T /\ r = slot m g).
-  assert (E2 : ES lam vals (n :: T) (e :: Dr) es1 (l_ctr st) st2 Sold).
+  assert (E2 : ES ep lam vals (n :: T) (e :: Dr) es1 (stale J (l_ctr st)) st2 Sold).
   { constructor.
     - exact C2.
     - intros a b r Hc. rewrite Fc2 in Hc. destruct (CI1 a b r Hc) as [Tm|(na & nb & Ia & Ib & R)]; [left; exact Tm|].
       right. exists na, nb. split; [exact Ia|]. split; [right; exact Ib | exact R].
     - rewrite L2, El2. apply (EI_mono vals T (n :: T) HwfT HwfT' (fun x Hx => or_intror Hx)). exact I0.
     - rewrite El2. exact N0. }
-  destruct (handle_sim cap lam vals Hvals (n :: T) (e :: Dr) es1 (l_ctr st) Hff' NT' W' (ae e) n eq_refl eq_refl eq_refl
+  destruct (handle_sim cap ep lam vals Hvals (n :: T) (e :: Dr) es1 (stale J (l_ctr st)) Hff' NT' W' (policy_fn pol) sf Hsf
+              (ae e) n eq_refl eq_refl eq_refl
               (or_introl eq_refl) (Datatypes.S (Datatypes.S (N.to_nat (ffr e - nd_spf n)))) st2 Sold (nd_spf n + 1) [] E2)
-    as [bl [st' [EH [D' [SG' [BO [RR CC]]]]]]].
+    as [bl [st' [L [EH [SG' [BO EN]]]]]].
   { lia. }
   { change (nd_fr n) with (ffr e). lia. }
   { rewrite L2. intros m g Hg Hm Hor.
@@ -217,32 +244,68 @@ Proof.
       unfold roots_at in Hm. apply filter_In in Hm as [_ Hm]. unfold is_root_at in Hm. destruct Hor as [Hor|Hor]; [congruence | lia]. }
     split; [|exists m, g; auto]. apply AV; [exact Hg|].
     unfold roots_at in *. apply filter_In in Hm as [_ Hm]. apply filter_In. auto. }
-  cbn [app] in EH. change (mk_node nv T e) with n. fold st2. rewrite EH.
-  assert (Hseal : sealed_in bl = false).
-  { unfold sealed_in. destruct (existsb _ bl) eqn:X; [|reflexivity]. apply existsb_exists in X as [b [Hb X]].
-    destruct (BO b Hb) as [_ Sl]. rewrite Sl in X. discriminate. }
-  rewrite Hseal.
-  assert (Ep' : l_epoch st' = 1).
-  { destruct D' as [S' [[C' _ _ _] _]]. apply (co_epoch _ _ _ _ _ _ _ C'). }
-  rewrite Ep'.
-  exists bl, {| i_st := st'; i_es := es1; i_proc := a_id (ae e) :: i_proc i |}. split; [reflexivity|].
-  cbn [i_st i_es i_proc]. split; [|rewrite CC, Ct2; reflexivity]. constructor; cbn [i_st i_es i_proc].
-  - exact W'.
-  - rewrite CC, Ct2. exact D'.
-  - intros e0 [<-|He0]; [exact Fe | apply FR; exact He0].
-  - rewrite CC, Ct2. exact CT.
-  - intros id. cbn [to_aevent a_id ids_of map In]. rewrite PR. reflexivity.
-  - rewrite map_app. eapply Seg_app.
-    + apply (Seg_mono vals T (n :: T) HwfT HwfT' Hff' (fun x Hx => or_intror Hx)). exact SG.
-    + rewrite map_map. rewrite L2 in SG'. exact SG'.
-  - intros b Hb. apply in_app_or in Hb as [Hb|Hb].
-    + rewrite (CH b Hb).
+  cbn [app] in EH. cbn zeta. change (mk_node nv T e) with n. fold st2. rewrite EH. rewrite L2 in SG'.
+  (* all blocks so far *)
+  assert (SGall : Seg vals (n :: T) 0 (map fst (B ++ map blk_obs bl)) L).
+  { rewrite map_app. eapply Seg_app.
+    - apply (Seg_mono vals T (n :: T) HwfT HwfT' Hff' (fun x Hx => or_intror Hx)). exact SG.
+    - rewrite map_map. exact SG'. }
+  assert (CHall : forall b, In b (B ++ map blk_obs bl) -> snd b = ElectionSpec.cheaters_of vals (n :: T) (snd (fst b))).
+  { intros b Hb. apply in_app_or in Hb as [Hb|Hb].
+    - rewrite (CH b Hb).
       assert (Hd := Seg_in T 0 (map fst B) (l_ldf st) (fst (fst b)) (snd (fst b)) SG).
       destruct (atropos_in vals T Dr W (fst (fst b)) (snd (fst b))) as [x [Ix Ex]].
       { apply Hd. apply in_map_iff. exists b. split; [destruct b as [[? ?] ?]; reflexivity | exact Hb]. }
       rewrite <- Ex. symmetry. apply (cheaters_stable vals T (n :: T) x HwfT' (fun y Hy => or_intror Hy)).
       eapply roots_in; exact Ix.
-    + apply in_map_iff in Hb as [blk [<- Hblk]]. destruct (BO blk Hblk) as [Chh _]. exact Chh.
+    - apply in_map_iff in Hb as [blk [<- Hblk]]. destruct (BO blk Hblk) as [Chh _]. exact Chh. }
+  assert (Hsl : forall b, In b bl -> b_seal b = sf (b_frame b) /\ l_ldf st < b_frame b <= L).
+  { intros b Hb. split; [apply (BO b Hb)|]. apply (Seg_frames (n :: T) _ _ _ (b_frame b) (b_atropos b) SG').
+    apply in_map_iff. exists b. auto. }
+  destruct EN as [(D' & EL & NS & RR & CC)|(nv' & Lt & NS & Sf & ES')].
+  - (* the epoch goes on *)
+    rewrite L2 in NS.
+    assert (Hseal : sealed_in bl = false).
+    { unfold sealed_in. destruct (existsb _ bl) eqn:X; [|reflexivity]. apply existsb_exists in X as [b [Hb X]].
+      destruct (Hsl b Hb) as [Sl Fr]. rewrite Sl, (NS _ Fr) in X. discriminate. }
+    rewrite Hseal.
+    assert (Ep' : l_epoch st' = ep).
+    { destruct D' as [S' [[C' _ _ _] _]]. apply (co_epoch _ _ _ _ _ _ _ _ C'). }
+    exists bl, {| i_st := st'; i_es := es1; i_proc := a_id (ae e) :: i_proc i |}, L. split; [reflexivity|].
+    split; [exact SGall|]. split; [exact CHall|]. left. cbn [i_st i_es i_proc].
+    split; [|split; [rewrite CC, Ct2; reflexivity | split; [exact Ep' | split; [exact EL | exact NS]]]].
+    constructor; cbn [i_st i_es i_proc].
+    + exact W'.
+    + rewrite CC, Ct2. exact D'.
+    + intros e0 [<-|He0]; [split; [exact Fe | exact Je] | apply FR; exact He0].
+    + rewrite CC, Ct2. exact CT.
+    + intros id. cbn [to_aevent a_id ids_of map In]. rewrite PR. reflexivity.
+    + rewrite <- EL. exact SGall.
+    + exact CHall.
+  - (* the last block seals the epoch *)
+    rewrite L2 in Lt, NS.
+    assert (Hseal : sealed_in bl = true).
+    { destruct (Seg_last (n :: T) _ _ _ SG' Lt) as [a Ha]. apply in_map_iff in Ha as [b [Eb Hb]].
+      unfold sealed_in. apply existsb_exists. exists b. split; [exact Hb|]. destruct (Hsl b Hb) as [Sl _].
+      unfold fa in Eb. inversion Eb as [[Ef Ea]]. rewrite Sl, Ef, Sf. reflexivity. }
+    rewrite Hseal. subst st'. rewrite Ct2.
+    exists bl, {| i_st := sealed_state ep nv' (l_ctr st); i_es := es1; i_proc := [] |}, L. split; [reflexivity|]. split; [exact SGall|]. split; [exact CHall|].
+    right. exists nv'. split; [exact Lt|]. split; [exact NS|]. split; [exact Sf | reflexivity].
 Qed.
 
 End Step.
+
+(* the same without a sealing policy *)
+Lemma process_step cap ep lam vals (Hvals : vals_ok vals) J K i T Dr B e : Sim ep lam vals J K i T Dr B ->
+  id_fresh K (eid (fe e)) -> ~ J (eid (fe e)) ->
+  parents_known T e -> nlookup (eid (fe e)) T = None -> (ecr (fe e) < length vals)%nat -> ev_wf T e ->
+  r_frame_ok vals T (mk_node (length vals) T e) = true -> few_forkers vals (mk_node (length vals) T e :: T) ->
+  exists bl i', step cap [] sample i (OpP (to_aevent ep lam vals e)) = (ObsP None bl (l_ldf (i_st i')) ep, i', false) /\
+    Sim ep lam vals J K i' (mk_node (length vals) T e :: T) (e :: Dr) (B ++ map blk_obs bl) /\ l_ctr (i_st i') = l_ctr (i_st i).
+Proof.
+  intros HS Fe Je PK NL CR EW FO Hff.
+  destruct (process_step_gen cap ep lam vals Hvals J K [] (fun _ => None) (fun _ _ _ _ => eq_refl) i T Dr B e HS Fe Je PK NL CR EW FO Hff)
+    as [bl [i' [L [E [_ [_ [(HS' & C & Ep & _)|(nv' & _ & _ & Sf & _)]]]]]]]; [|discriminate].
+  exists bl, i'. rewrite Ep in E. auto.
+Qed.
+
